@@ -336,7 +336,10 @@ func c19Variant(r *rand.Rand, scheme, host string) (string, string, string) {
 	case 7:
 		return "defport", scheme, name + ":" + c19DefaultPort(scheme)
 	case 8:
-		return "suffix", scheme, h + ".evil.test"
+		if r.Intn(6) == 0 {
+			return "suffix-raw", scheme, h + ".evil.test" // with a port this is not a valid URL: no request must result
+		}
+		return "suffix", scheme, name + ".evil.test" + h[len(name):]
 	case 9:
 		return "prefix", scheme, "evil" + h
 	case 10:
@@ -541,8 +544,10 @@ func c19Gen(r *rand.Rand, kind string) c19Case {
 			priv := c19Repo{Name: "private", URL: target.URL, User: "user-private", Pass: fmt.Sprintf("pw-private-%d", r.Intn(1000)),
 				PassAll: r.Intn(6) == 0, URLs: []string{abs}}
 			pub := c19Repo{Name: "public", URL: s2 + "://" + h2 + "/charts", URLs: []string{abs}}
-			if pub.URL == priv.URL {
-				pub.URL += "/mirror"
+			if downloader.VerifURLEqual(pub.URL, priv.URL) {
+				// findChartURL ranges over a Go map: two entries with Equal URLs would make the
+				// choice of the dependency's repository nondeterministic
+				pub.URL = strings.TrimSuffix(pub.URL, "/") + "/mirror"
 			}
 			c.Repos = []c19Repo{pub, priv}
 			c.DepRepo, c.AdhocURLs = priv.URL, nil
@@ -1036,7 +1041,13 @@ func (*c19) Oracle(ci, oi any) []hx.Violation {
 		first := ""
 		for _, rq := range obs.Reqs {
 			if !rq.Follow {
-				gi++
+				// the Get this request belongs to: the next one whose URL names this host and
+				// path (a Get whose URL does not parse makes no request at all)
+				for gi++; gi < len(c.Gets); gi++ {
+					if u, err := url.Parse(c.Gets[gi].Href); err == nil && u.Host == rq.Host && u.Path == rq.Path {
+						break
+					}
+				}
 				first = rq.Host
 			}
 			if !rq.Auth || gi < 0 || gi >= len(states) {
